@@ -75,11 +75,15 @@ class Tracer:
         self.synced: dict = {}  # inode -> size durable on disk (recorded after each fsync)
         self.max_open = 0
         self.open_now: dict = {}
+        self.trace_select = False
+        self.trace_stat = False
 
     # ------------------------------------------------------------------ helpers
     def rel(self, path) -> str | None:
         try:
-            p = os.path.realpath(os.fspath(path))
+            p = os.path.abspath(os.fspath(path))
+            if isinstance(p, bytes):
+                p = p.decode()
         except TypeError:
             return None
         if p == self.root:
@@ -115,7 +119,7 @@ class Tracer:
         t = self
         real_open = builtins.open
         _REAL.update(open=real_open, rename=os.rename, replace=os.replace, remove=os.remove, unlink=os.unlink, link=os.link,
-                     mkdir=os.mkdir, osopen=os.open, osclose=os.close, fsync=os.fsync, fcntl=fcntl.fcntl)
+                     mkdir=os.mkdir, osopen=os.open, osclose=os.close, fsync=os.fsync, fcntl=fcntl.fcntl, stat=os.stat)
 
         def t_open(file, mode='r', *a, **k):
             rel = t.rel(file) if isinstance(file, (str, bytes, os.PathLike)) else None
@@ -183,7 +187,15 @@ class Tracer:
                 t.emit(('fcntl', r, cmd))
             return _REAL['fcntl'](fd, cmd, *a)
 
+        def t_stat(path, *a, **k):
+            if t.trace_stat and isinstance(path, (str, bytes, os.PathLike)):
+                r = t.rel(path)
+                if r is not None and r.startswith('loose' + os.sep) and r.count(os.sep) >= 1:
+                    t.emit(('stat', r))
+            return _REAL['stat'](path, *a, **k)
+
         builtins.open = t_open
+        os.stat = t_stat
         os.rename = wrap2('rename', _REAL['rename'])
         os.replace = wrap2('replace', _REAL['replace'])
         os.link = wrap2('link', _REAL['link'])
@@ -212,6 +224,8 @@ class Tracer:
             if st in ('INSERT', 'UPDATE', 'DELETE'):
                 n = len(parameters) if executemany else 1
                 t.emit(('sql', st, n, statement[:80], _params(parameters, executemany)))
+            elif st == 'SELECT' and t.trace_select:
+                t.emit(('select', statement[:70]))
             elif st == 'COMMIT':
                 t.emit(('commit',))
             elif st == 'VACUUM':
@@ -240,6 +254,7 @@ class Tracer:
         os.rename, os.replace, os.remove, os.unlink, os.link, os.mkdir = (_REAL['rename'], _REAL['replace'], _REAL['remove'],
                                                                           _REAL['unlink'], _REAL['link'], _REAL['mkdir'])
         os.open, os.close, os.fsync = _REAL['osopen'], _REAL['osclose'], _REAL['fsync']
+        os.stat = _REAL['stat']
         fcntl.fcntl = _REAL['fcntl']
         from sqlalchemy import event  # pylint: disable=import-outside-toplevel
 
